@@ -84,37 +84,37 @@ func init() {
 		},
 	})
 	def("C04", &propertyDef{
-		Decides:    "merge coverage (A4): every attribute below services/networks/volumes/secrets/configs that the schema lets be spelled as list-or-mapping or string-or-list has a converting merger; every uniqueItems list is de-duplicated after the append (unicity indexer, mapping-producing or replacing merger), the de-duplication keeping, per key, the position of its first occurrence in the output list (position-map idiom, proved by PANIC-IDX over package override); command, entrypoint and healthcheck.test are bound to the replacing merger; each indexer has an arm for every item kind, and builds its key with verbs that print every admissible YAML type of a field alike (FMTVERB); mergeLogging consults the presence of `driver` on both sides before replacing instead of merging (LOGMERGE). The two tables are exclusive and have no dead rows (A1, A2). Stage order Apply(!reset) < Merge < EnforceUnicity < validate < Canonical < EnforceUnicity holds on every path and each stage's error is propagated (PIPE); every YAML document of a file runs through the pipeline (MULTIDOC). A float of the document is turned into the text of a KEY=VALUE entry the way fmt does it, in the mergers as in the decoders (FMTFLOAT). A merger that walks the entries of its base list appends each of them (or what it builds from it) on every iteration: entries no override matches survive (MERGEKEEP).",
+		Decides:    "merge coverage (A4): every attribute below services/networks/volumes/secrets/configs that the schema lets be spelled as list-or-mapping or string-or-list has a converting merger; every uniqueItems list is de-duplicated after the append (unicity indexer, mapping-producing or replacing merger), the de-duplication keeping, per key, the position of its first occurrence in the output list (position-map idiom, proved by PANIC-IDX over package override); command, entrypoint and healthcheck.test are bound to the replacing merger; each indexer has an arm for every item kind, and builds its key with verbs that print every admissible YAML type of a field alike (FMTVERB); mergeLogging consults the presence of `driver` on both sides before replacing instead of merging (LOGMERGE). The two tables are exclusive and have no dead rows (A1, A2). Stage order Apply(!reset) < Merge < EnforceUnicity < validate < Canonical < EnforceUnicity holds on every path and each stage's error is propagated (PIPE); every YAML document of a file runs through the pipeline (MULTIDOC). A float of the document is turned into the text of a KEY=VALUE entry the way fmt does it, in the mergers as in the decoders (FMTFLOAT). A merger that walks the entries of its base list appends each of them (or what it builds from it) on every iteration: entries no override matches survive (MERGEKEEP). An indexer made by a factory never joins an empty default directory with path.Join, which would drop the leading slash from the key of one spelling only (KEYABS).",
 		NotDecided: "the merged values themselves; `!reset` inside sequences; that what a later file does not mention is preserved.",
-		Rules:      []string{"A4", "PANIC-IDX", "FMTVERB", "A1", "A2", "PIPE", "MULTIDOC", "TREEPATH", "TREE", "LOGMERGE", "FMTFLOAT", "MERGEKEEP"},
+		Rules:      []string{"A4", "PANIC-IDX", "FMTVERB", "A1", "A2", "PIPE", "MULTIDOC", "TREEPATH", "TREE", "LOGMERGE", "FMTFLOAT", "MERGEKEEP", "KEYABS"},
 		Run: func(c *rules.Ctx) []report.Obligation {
-			return cat(c.MERGEKEEP("MERGEKEEP"), c.FMTFLOAT("FMTFLOAT"), c.LOGMERGE("LOGMERGE"), c.A4("A4"), rules.Only(c.PanicIDX("PANIC-IDX", "LOAD"), "override."), c.FMTVERB("FMTVERB", "override"), c.TREEPATH("TREEPATH"), c.TREE("TREE", "LOAD"), c.A1("A1", rules.TMerge, rules.TUnique), c.A2("A2", rules.TMerge, rules.TUnique),
+			return cat(c.KEYABS("KEYABS"), c.MERGEKEEP("MERGEKEEP"), c.FMTFLOAT("FMTFLOAT"), c.LOGMERGE("LOGMERGE"), c.A4("A4"), rules.Only(c.PanicIDX("PANIC-IDX", "LOAD"), "override."), c.FMTVERB("FMTVERB", "override"), c.TREEPATH("TREEPATH"), c.TREE("TREE", "LOAD"), c.A1("A1", rules.TMerge, rules.TUnique), c.A2("A2", rules.TMerge, rules.TUnique),
 				c.PIPE("PIPE", stageIn("Apply", "override.Merge", "override.EnforceUnicity", "schema.Validate", "transform.Canonical", "loader.OmitEmpty")), c.MULTIDOC("MULTIDOC"))
 		},
 	})
 	def("C05", &propertyDef{
-		Decides:    "in the function that calls override.ExtendService: the base is a fresh deep clone (ownership analysis of deepClone), every return of the merged service is dominated by delete(merged,\"extends\") and by the memoising store, missing bases have error returns, the other file is loaded with ResolvePaths=false and resolved once against loader.Dir(refPath) on every success path, ApplyExtends stores the result for every service (EXT); the recursion is guarded by a successful cycleTracker.Add (CYC); the mergers that ExtendService runs never store one map or slice under several keys, so refining one inherited entry cannot change its siblings (TREE, package override). Whether the file named by `extends.file` is loaded depends on presence, type, nil and error tests only (EXT-7).",
+		Decides:    "in the function that calls override.ExtendService: the base is a fresh deep clone (ownership analysis of deepClone), every return of the merged service is dominated by delete(merged,\"extends\") and by the memoising store, missing bases have error returns, the other file is loaded with ResolvePaths=false and resolved once against loader.Dir(refPath) on every success path, ApplyExtends stores the result for every service (EXT); the recursion is guarded by a successful cycleTracker.Add (CYC); the mergers that ExtendService runs never store one map or slice under several keys, so refining one inherited entry cannot change its siblings (TREE, package override). Whether the file named by `extends.file` is loaded depends on presence, type, nil and error tests only (EXT-7). The post-processors of the chain accumulate: the list applied to the base and handed down is the received list extended with append (EXT-8).",
 		NotDecided: "that the result equals base-then-local by the override rules (merge values); per-attribute path anchoring.",
-		Rules:      []string{"EXT", "CYC", "TREEPATH", "TREE", "EXT-7"},
+		Rules:      []string{"EXT", "CYC", "TREEPATH", "TREE", "EXT-7", "EXT-8"},
 		Run: func(c *rules.Ctx) []report.Obligation {
 			return cat(rules.Only(c.TREE("TREE", "LOAD"), "override.", "loader.", "inventory"), c.EXT("EXT"), rules.Only(c.CYC("CYC"), "extends ::"), c.TREEPATH("TREEPATH"))
 		},
 	})
 	def("C06", &propertyDef{
-		Decides:    "import stores a resource only when absent, differing redefinitions return an error (INC-1); the default `.env` of an included project is the one of its project directory (INCENV); every field of loader.Options is copied, from the field of the same name, by (*Options).clone, so a nested load (include, extends) runs under the switches the caller set (CLONE); every entry of an include section is loaded: no iteration over the entries reaches the next without the nested load (REFS); the resource kinds imported / named / rendered equal the resource maps of types.Project (A10); the include chain is compared, extended and handed to the nested load (CYC); the nested load works on cloned options with ResolvePaths, SkipNormalization and SkipConsistencyCheck forced, its environment is Clone(parent).Merge(env file) (INC-4); `include` is deleted and the nested model imported on every success path (INC-5); included env_file errors are propagated (ERR); a secret / config attribute is filled from the environment only on the ok edge of the lookup, so the second pass over an imported model (parent environment only) cannot blank what the included project's own environment resolved (ENVPRES). A relative env_file / project_directory of an include entry is anchored at the directory of the local resource loader, not at the (below the first level: relative) workingDir parameter alone (INC-6).",
+		Decides:    "import stores a resource only when absent, differing redefinitions return an error (INC-1); the default `.env` of an included project is the one of its project directory (INCENV); every field of loader.Options is copied, from the field of the same name, by (*Options).clone, so a nested load (include, extends) runs under the switches the caller set (CLONE); every entry of an include section is loaded: no iteration over the entries reaches the next without the nested load (REFS); the resource kinds imported / named / rendered equal the resource maps of types.Project (A10); the include chain is compared, extended and handed to the nested load (CYC); the nested load works on cloned options with ResolvePaths, SkipNormalization and SkipConsistencyCheck forced, its environment is Clone(parent).Merge(env file) (INC-4); `include` is deleted and the nested model imported on every success path (INC-5); included env_file errors are propagated (ERR); a secret / config attribute is filled from the environment only on the ok edge of the lookup, so the second pass over an imported model (parent environment only) cannot blank what the included project's own environment resolved (ENVPRES). A relative env_file / project_directory of an include entry is anchored at the directory of the local resource loader, not at the (below the first level: relative) workingDir parameter alone (INC-6). Environment-sourced attributes are resolved by every (nested) model load, in loadYamlModel, where the included project's own environment is in force (PIPE: the ResolveEnvironment stage).",
 		NotDecided: "equivalence with the pasted model; directory anchoring values.",
-		Rules:      []string{"INC", "A10", "CYC", "ERR", "REFS", "CLONE", "INCENV", "ENVPRES"},
+		Rules:      []string{"INC", "A10", "CYC", "ERR", "REFS", "CLONE", "INCENV", "ENVPRES", "PIPE"},
 		Run: func(c *rules.Ctx) []report.Obligation {
-			return cat(c.ENVPRES("ENVPRES"), c.INCENV("INCENV"), c.CLONE("CLONE"), c.INC("INC"), c.A10("A10"), rules.Only(c.CYC("CYC"), "include ::"), rules.Only(c.ERR("ERR", "LOAD"), "loader.ApplyInclude ::"), rules.Only(c.REFS("REFS", "loader"), "loader.ApplyInclude ::"),
+			return cat(c.PIPE("PIPE", stageIn("loader.ResolveEnvironment")), c.ENVPRES("ENVPRES"), c.INCENV("INCENV"), c.CLONE("CLONE"), c.INC("INC"), c.A10("A10"), rules.Only(c.CYC("CYC"), "include ::"), rules.Only(c.ERR("ERR", "LOAD"), "loader.ApplyInclude ::"), rules.Only(c.REFS("REFS", "loader"), "loader.ApplyInclude ::"),
 				c.RangeGuard("INC-4", "types.(Mapping).Merge", true))
 		},
 	})
 	def("C07", &propertyDef{
-		Decides:    "the operator table, the operator class of the braced-substitution regex and the separator each bound function partitions on agree row by row (TPL-1); defaults, replacements and error messages go through Substitute (TPL-2); no value obtained from the variable mapping flows back into the template argument of Substitute*/ReplaceAllStringFunc (TPL-3); an empty name yields InvalidTemplateError (TPL-4); the brace-matching scan looks at every byte: its index advances by exactly one per iteration (TPL-7); index/slice/assertion safety in packages template and interpolation (PANIC-IDX, PANIC-TA); Substitute keeps no state: no package-level variable of template / interpolation is written after init, directly or through a copy of its slice header, map or pointer (GLOB).",
+		Decides:    "the operator table, the operator class of the braced-substitution regex and the separator each bound function partitions on agree row by row (TPL-1); defaults, replacements and error messages go through Substitute (TPL-2); no value obtained from the variable mapping flows back into the template argument of Substitute*/ReplaceAllStringFunc (TPL-3); an empty name yields InvalidTemplateError (TPL-4); the brace-matching scan looks at every byte: its index advances by exactly one per iteration (TPL-7); index/slice/assertion safety in packages template and interpolation (PANIC-IDX, PANIC-TA); Substitute keeps no state: no package-level variable of template / interpolation is written after init, directly or through a copy of its slice header, map or pointer (GLOB). A memo of variable lookups in packages template / interpolation hands out what it stored, not the fact that it stored something (MEMO).",
 		NotDecided: "the semantics of each operator (set/unset/empty tables), brace matching, first-operator-wins, verbatim copying of literal text: value-level. This is the narrowest claim of the set.",
-		Rules:      []string{"TPL", "PANIC-IDX", "PANIC-TA", "GLOB"},
+		Rules:      []string{"TPL", "PANIC-IDX", "PANIC-TA", "GLOB", "MEMO"},
 		Run: func(c *rules.Ctx) []report.Obligation {
-			return cat(c.BRACESCAN("TPL-7"), c.TPL("TPL"), c.PanicIDX("PANIC-IDX", "TEMPLATE"), c.PanicTA("PANIC-TA", "TEMPLATE"), rules.Only(c.GLOB("GLOB"), "template.", "interpolation.", "inventory"))
+			return cat(rules.Only(c.MEMO("MEMO"), "template.", "interpolation.", "inventory"), c.BRACESCAN("TPL-7"), c.TPL("TPL"), c.PanicIDX("PANIC-IDX", "TEMPLATE"), c.PanicTA("PANIC-TA", "TEMPLATE"), rules.Only(c.GLOB("GLOB"), "template.", "interpolation.", "inventory"))
 		},
 	})
 	def("C08", &propertyDef{
@@ -126,19 +126,19 @@ func init() {
 		},
 	})
 	def("C09", &propertyDef{
-		Decides:    "every model field has equal yaml and json keys (or json \"-\"); a type has both or neither of MarshalYAML/MarshalJSON; the kind a custom MarshalYAML emits is admitted by the schema where the type is used (A6); every schema attribute has a model field (A7); Project.MarshalJSON enumerates the resource kinds of the struct (A10); renderers and the parsers that read them back agree on their literal separators and host lists are sorted (CODEC); rendering leaves the project untouched: MarshalYAML / MarshalJSON and what they call write nothing reachable from the receiver, so a second rendering starts from the same project (IMM-I1); decoders of signed integer model types do not parse with an unsigned parser (NUMSIGN); no renderer chooses a spelling by the sign of an integer field (SIGNCMP); a key is resolved from the environment only when it has no value at all (bare `KEY`, null), decided by nil / separator-absence / type tests and never by an emptiness test, so `KEY=` stays explicitly empty (INHERIT), which is what keeps an explicitly empty value of a rendering from inheriting on reload. An attribute that has a documented default and takes part in the key under which a unique list is de-duplicated enters that key with the default when it is absent, so the first load and the reload (where defaults are spelled out) de-duplicate alike (KEYDFLT). The renderers of package types keep no package-level state (no pooled buffer, no cache): the bytes of one rendering cannot be overwritten by the next (GLOB, package types).",
+		Decides:    "every model field has equal yaml and json keys (or json \"-\"); a type has both or neither of MarshalYAML/MarshalJSON; the kind a custom MarshalYAML emits is admitted by the schema where the type is used (A6); every schema attribute has a model field (A7); Project.MarshalJSON enumerates the resource kinds of the struct (A10); renderers and the parsers that read them back agree on their literal separators and host lists are sorted (CODEC); rendering leaves the project untouched: MarshalYAML / MarshalJSON and what they call write nothing reachable from the receiver, so a second rendering starts from the same project (IMM-I1); decoders of signed integer model types do not parse with an unsigned parser (NUMSIGN); no renderer chooses a spelling by the sign of an integer field (SIGNCMP); a key is resolved from the environment only when it has no value at all (bare `KEY`, null), decided by nil / separator-absence / type tests and never by an emptiness test, so `KEY=` stays explicitly empty (INHERIT), which is what keeps an explicitly empty value of a rendering from inheriting on reload. An attribute that has a documented default and takes part in the key under which a unique list is de-duplicated enters that key with the default when it is absent, so the first load and the reload (where defaults are spelled out) de-duplicate alike (KEYDFLT). The renderers of package types keep no package-level state (no pooled buffer, no cache): the bytes of one rendering cannot be overwritten by the next (GLOB, package types). A constant default is only given to fields whose zero value a user cannot mean or which are rendered even when zero (OMITDFLT), so a project with an explicit false / 0 re-renders and reloads unchanged.",
 		NotDecided: "equality of the reloaded project; byte-identity of a second rendering beyond map order and receiver immutability.",
-		Rules:      []string{"A6", "A7", "A10", "CODEC", "IMM-I1", "INHERIT", "NUMSIGN", "SIGNCMP", "KEYDFLT", "GLOB"},
+		Rules:      []string{"A6", "A7", "A10", "CODEC", "IMM-I1", "INHERIT", "NUMSIGN", "SIGNCMP", "KEYDFLT", "GLOB", "OMITDFLT"},
 		Run: func(c *rules.Ctx) []report.Obligation {
-			return cat(rules.Only(c.GLOB("GLOB"), "types.", "inventory"), c.KEYDFLT("KEYDFLT"), c.SIGNCMP("SIGNCMP"), c.NUMSIGN("NUMSIGN"), c.INHERIT("INHERIT"), c.A6("A6"), c.A7("A7"), c.A10("A10"), c.CODEC("CODEC"), c.IMMRender("IMM"))
+			return cat(c.OMITDFLT("OMITDFLT"), rules.Only(c.GLOB("GLOB"), "types.", "inventory"), c.KEYDFLT("KEYDFLT"), c.SIGNCMP("SIGNCMP"), c.NUMSIGN("NUMSIGN"), c.INHERIT("INHERIT"), c.A6("A6"), c.A7("A7"), c.A10("A10"), c.CODEC("CODEC"), c.IMMRender("IMM"))
 		},
 	})
 	def("C10", &propertyDef{
-		Decides:    "checkConsistency has an error return that depends on the model fields of each of the 20 rules of the statement (INV) and ends in graph.CheckCycle; searchCycle is guarded by path membership and errors on a hit (CYC); checkConsistency runs unless SkipConsistencyCheck and validation.Validate unless SkipValidation, errors propagated (PIPE); the switches are the caller's: loader.Options fields are written only by option setters or on an Options value the function created / cloned, never through a *Options received from the caller (GATEW); the error for several exclusive sources of a secret / config does not depend on `driver` / `external` (SRCEXCL); every field of loader.Options is copied, from the field of the same name, by (*Options).clone, so a nested load (include, extends) runs under the switches the caller set (CLONE); validation.checks rows denote schema paths and are exclusive (A1, A2). Every attribute a validation check tests as a boolean or number has an interpolation cast row at its path, so the check sees the typed value also when it was written as a variable (CHKCAST). An error of checkConsistency that is only reported when an optional section is present has a condition that reads inside that section (INV-guard): a nil guard in front of a rule that does not need it switches the rule off for models without the section.",
+		Decides:    "checkConsistency has an error return that depends on the model fields of each of the 20 rules of the statement (INV) and ends in graph.CheckCycle; searchCycle is guarded by path membership and errors on a hit (CYC); checkConsistency runs unless SkipConsistencyCheck and validation.Validate unless SkipValidation, errors propagated (PIPE); the switches are the caller's: loader.Options fields are written only by option setters or on an Options value the function created / cloned, never through a *Options received from the caller (GATEW); the error for several exclusive sources of a secret / config does not depend on `driver` / `external` (SRCEXCL); every field of loader.Options is copied, from the field of the same name, by (*Options).clone, so a nested load (include, extends) runs under the switches the caller set (CLONE); validation.checks rows denote schema paths and are exclusive (A1, A2). Every attribute a validation check tests as a boolean or number has an interpolation cast row at its path, so the check sees the typed value also when it was written as a variable (CHKCAST). An error of checkConsistency that is only reported when an optional section is present has a condition that reads inside that section (INV-guard): a nil guard in front of a rule that does not need it switches the rule off for models without the section. Paired settings are tested for being set with != 0, never by sign (INV-sign).",
 		NotDecided: "that each condition is the right condition (an inverted comparison survives); acceptance implies consistency for fragments arriving through override / extends / include.",
-		Rules:      []string{"INV", "CYC", "PIPE", "GATEW", "A1", "A2", "CLONE", "TREE", "EXTVAL", "SRCEXCL", "CHKCAST", "INV-guard"},
+		Rules:      []string{"INV", "CYC", "PIPE", "GATEW", "A1", "A2", "CLONE", "TREE", "EXTVAL", "SRCEXCL", "CHKCAST", "INV-guard", "INV-sign"},
 		Run: func(c *rules.Ctx) []report.Obligation {
-			return cat(c.CHKCAST("CHKCAST"), c.SRCEXCL("SRCEXCL"), c.EXTVAL("EXTVAL"), c.TREE("TREE", "LOAD"), c.CLONE("CLONE"), c.INV("INV"), rules.Only(c.CYC("CYC"), "depends_on ::"), c.PIPE("PIPE", stageIn("loader.checkConsistency", "validation.Validate")), c.GATEW("GATEW"),
+			return cat(c.INVSIGN("INV-sign"), c.CHKCAST("CHKCAST"), c.SRCEXCL("SRCEXCL"), c.EXTVAL("EXTVAL"), c.TREE("TREE", "LOAD"), c.CLONE("CLONE"), c.INV("INV"), rules.Only(c.CYC("CYC"), "depends_on ::"), c.PIPE("PIPE", stageIn("loader.checkConsistency", "validation.Validate")), c.GATEW("GATEW"),
 				c.A1("A1", rules.TChecks), c.A2("A2", rules.TChecks))
 		},
 	})
@@ -152,20 +152,20 @@ func init() {
 		},
 	})
 	def("C12", &propertyDef{
-		Decides:    "each path-bearing attribute named by the statement matches exactly one resolver row and no resolver sits on another attribute (A9); resolver patterns are exclusive and denote schema paths (A1, A2); each origin resolves against its own base: main files against config.WorkingDir gated by ResolvePaths, included projects against loader.Dir / project_directory (ORIGIN), extended files against loader.Dir(refPath) with the nested load not resolving (EXT-5); the base of an `extends` is a deep copy, so the in-place rewriting of a path-bearing mapping is applied once per service and never to an object two services share (EXT-1); a build context containing `://` is returned unchanged on the strength of a plain substring test (URLCTX); no branch of the resolver methods is decided by the base directory, so whether a path is rewritten depends on the path alone (PATHPURE); the home directory replaces exactly the leading `~` (TILDE); the resolvers bound to mount sources and secret / config files consult the Windows-absolute test (A9-win). No resolver of package paths decides by searching a value for a keyword as a substring (KEYWORD).",
+		Decides:    "each path-bearing attribute named by the statement matches exactly one resolver row and no resolver sits on another attribute (A9); resolver patterns are exclusive and denote schema paths (A1, A2); each origin resolves against its own base: main files against config.WorkingDir gated by ResolvePaths, included projects against loader.Dir / project_directory (ORIGIN), extended files against loader.Dir(refPath) with the nested load not resolving (EXT-5); the base of an `extends` is a deep copy, so the in-place rewriting of a path-bearing mapping is applied once per service and never to an object two services share (EXT-1); a build context containing `://` is returned unchanged on the strength of a plain substring test (URLCTX); no branch of the resolver methods is decided by the base directory, so whether a path is rewritten depends on the path alone (PATHPURE); the home directory replaces exactly the leading `~` (TILDE); the resolvers bound to mount sources and secret / config files consult the Windows-absolute test (A9-win). No resolver of package paths decides by searching a value for a keyword as a substring (KEYWORD). Files and directories are told apart with IsDir, never with IsRegular (KINDTEST).",
 		NotDecided: "absolute / known-remote-prefix / Windows detection, `~` expansion, idempotence: value-level string predicates.",
-		Rules:      []string{"A9", "A1", "A2", "ORIGIN", "EXT-5", "EXT-1", "PIPE", "TREEPATH", "URLCTX", "PATHPURE", "TILDE", "KEYWORD"},
+		Rules:      []string{"A9", "A1", "A2", "ORIGIN", "EXT-5", "EXT-1", "PIPE", "TREEPATH", "URLCTX", "PATHPURE", "TILDE", "KEYWORD", "KINDTEST"},
 		Run: func(c *rules.Ctx) []report.Obligation {
-			return cat(c.KEYWORD("KEYWORD"), c.TILDE("TILDE"), c.PATHPURE("PATHPURE"), c.A9("A9"), c.TREEPATH("TREEPATH"), c.URLCTX("URLCTX"), c.A1("A1", rules.TResolvers), c.A2("A2", rules.TResolvers), c.ORIGIN("ORIGIN"), rules.OnlyRule(c.EXT("EXT"), "EXT-5", "EXT-1"),
+			return cat(c.KINDTEST("KINDTEST"), c.KEYWORD("KEYWORD"), c.TILDE("TILDE"), c.PATHPURE("PATHPURE"), c.A9("A9"), c.TREEPATH("TREEPATH"), c.URLCTX("URLCTX"), c.A1("A1", rules.TResolvers), c.A2("A2", rules.TResolvers), c.ORIGIN("ORIGIN"), rules.OnlyRule(c.EXT("EXT"), "EXT-5", "EXT-1"),
 				c.PIPE("PIPE", stageIn("paths.ResolveRelativePaths")))
 		},
 	})
 	def("C13", &propertyDef{
-		Decides:    "the spawn in visit is gated by ready then enter; in the spawned closure the visitor precedes done, done precedes the hand-off send, and every exit sends (TRV-1/2); ready returns true only after the loop over all dependencies and the direction tables are mirror images (TRV-4); vertexVisited is stored only in done, enter is a test-and-set (TRV-5); status and results are accessed only under the mutex, in the constructor or after the join (R3); walk returns eg.Wait() after any spawn, channel capacity is len-derived with one send per closure (FAN); the cycle error returns before walk (TRV-7) and the cycle search compares every child with the current path before anything can prune it, recursing only when it is not on the path (CYC); the errgroup limit is maxConcurrency + the coordinator (TRV-10); the coordinator's counter starts at the number of vertices, drops by one per received vertex and stops the coordinator at zero (TRV-8); a skipped vertex is decided from state that the walk does not change (TRV-11); every mutex or semaphore slot taken is given back on every path to an exit (PAIR); fields of graph/vertex/Options are not written in the concurrent phase (RONLY); the traversal does not write through the *Project argument (IMM-I1). A limit set on an errgroup has one extra slot per closure that only waits for the others, and that closure is started on every path that reaches Wait (FAN-LIMIT).",
+		Decides:    "the spawn in visit is gated by ready then enter; in the spawned closure the visitor precedes done, done precedes the hand-off send, and every exit sends (TRV-1/2); ready returns true only after the loop over all dependencies and the direction tables are mirror images (TRV-4); vertexVisited is stored only in done, enter is a test-and-set (TRV-5); status and results are accessed only under the mutex, in the constructor or after the join (R3); walk returns eg.Wait() after any spawn, channel capacity is len-derived with one send per closure (FAN); the cycle error returns before walk (TRV-7) and the cycle search compares every child with the current path before anything can prune it, recursing only when it is not on the path (CYC); the errgroup limit is maxConcurrency + the coordinator (TRV-10); the coordinator's counter starts at the number of vertices, drops by one per received vertex and stops the coordinator at zero (TRV-8); a skipped vertex is decided from state that the walk does not change (TRV-11); every mutex or semaphore slot taken is given back on every path to an exit (PAIR); fields of graph/vertex/Options are not written in the concurrent phase (RONLY); the traversal does not write through the *Project argument (IMM-I1). A limit set on an errgroup has one extra slot per closure that only waits for the others, and that closure is started on every path that reaches Wait (FAN-LIMIT). Package graph writes nothing through the service copy a vertex carries (TRV-9b): its maps are the project's own.",
 		NotDecided: "liveness under every completion order, exactly-once, the interleaving space itself: the domain of model checking / schedule exploration.",
 		Rules:      []string{"TRV", "R3", "FAN", "RONLY", "IMM", "PAIR", "CYC", "FAN-LIMIT"},
 		Run: func(c *rules.Ctx) []report.Obligation {
-			return cat(c.FanLimit("FAN-LIMIT"), rules.Only(c.CYC("CYC"), "depends_on ::"), c.TRV("TRV"), c.R3("R3", "graph"), c.FanOut("FAN", "graph"),
+			return cat(c.TRVPayload("TRV-9b"), c.FanLimit("FAN-LIMIT"), rules.Only(c.CYC("CYC"), "depends_on ::"), c.TRV("TRV"), c.R3("R3", "graph"), c.FanOut("FAN", "graph"),
 				c.ROnly("RONLY", "graph", []string{"graph.walk"}, map[string]bool{"traversal.status": true, "traversal.results": true}), c.TRVSkip("TRV-11"), c.TRVCount("TRV-8"), c.PAIR("PAIR", "graph"), c.IMMGraph("IMM"))
 		},
 	})
@@ -204,11 +204,11 @@ func init() {
 		},
 	})
 	def("C18", &propertyDef{
-		Decides:    "every index and slice expression and every unchecked assertion reachable from the exported functions of package dotenv (and the part of template they reach) is in bounds for every byte string (PANIC-IDX, PANIC-TA, PANIC-EXPL); recursions and condition-less loops are inventoried (TERM); the quoted-value scan succeeds only at the matching quote and every exit after the scan carries an error, an invalid key rune is an error (ERRRET); no error of the parse scope reaches a return untested (ERRDROP); every env file named is read (REFS); a variable counts as found on the boolean result of the lookup alone and lookup functions keep no memo (LOOKUP); escape sequences are decoded in a single scan of the value as written (ESC). The blank class of the grammar (dotenv.isSpace) is the constant set TAB VT FF CR SPACE NEL NBSP, decided by comparisons with constants only (BLANKSET).",
+		Decides:    "every index and slice expression and every unchecked assertion reachable from the exported functions of package dotenv (and the part of template they reach) is in bounds for every byte string (PANIC-IDX, PANIC-TA, PANIC-EXPL); recursions and condition-less loops are inventoried (TERM); the quoted-value scan succeeds only at the matching quote and every exit after the scan carries an error, an invalid key rune is an error (ERRRET); no error of the parse scope reaches a return untested (ERRDROP); every env file named is read (REFS); a variable counts as found on the boolean result of the lookup alone and lookup functions keep no memo (LOOKUP); escape sequences are decoded in a single scan of the value as written (ESC). The blank class of the grammar (dotenv.isSpace) is the constant set TAB VT FF CR SPACE NEL NBSP, decided by comparisons with constants only (BLANKSET). Nothing rewrites the source of an env file before the quote-aware scanner sees it (SRCREWRITE).",
 		NotDecided: "that the returned map is the grammar's (quoting, escapes, inline comments, lookup precedence): needs a reference evaluator.",
-		Rules:      []string{"PANIC-IDX", "PANIC-TA", "PANIC-EXPL", "TERM", "ERRRET", "ERRDROP", "REFS", "LOOKUP", "ESC", "BLANKSET"},
+		Rules:      []string{"PANIC-IDX", "PANIC-TA", "PANIC-EXPL", "TERM", "ERRRET", "ERRDROP", "REFS", "LOOKUP", "ESC", "BLANKSET", "SRCREWRITE"},
 		Run: func(c *rules.Ctx) []report.Obligation {
-			return cat(c.BLANKSET("BLANKSET"), c.ESC("ESC"), c.PanicIDX("PANIC-IDX", "DOTENV"), c.PanicTA("PANIC-TA", "DOTENV"), c.PanicExpl("PANIC-EXPL", "DOTENV"), c.TERM("TERM", "DOTENV"), c.ERRRET("ERRRET"), c.ERRDROP("ERRDROP", "DOTENV"), c.REFS("REFS", "dotenv"), c.LOOKUP("LOOKUP", "dotenv"))
+			return cat(c.SRCREWRITE("SRCREWRITE"), c.BLANKSET("BLANKSET"), c.ESC("ESC"), c.PanicIDX("PANIC-IDX", "DOTENV"), c.PanicTA("PANIC-TA", "DOTENV"), c.PanicExpl("PANIC-EXPL", "DOTENV"), c.TERM("TERM", "DOTENV"), c.ERRRET("ERRRET"), c.ERRDROP("ERRDROP", "DOTENV"), c.REFS("REFS", "dotenv"), c.LOOKUP("LOOKUP", "dotenv"))
 		},
 	})
 	def("C19", &propertyDef{
@@ -221,11 +221,11 @@ func init() {
 		},
 	})
 	def("C20", &propertyDef{
-		Decides:    "each of the four secret/config marshallers blanks Content on the edge where it must not be rendered and reads the rendered copy afterwards (SEC-1); they exist with value receivers (SEC-2); marshallContent is written in one function, under the explicit option, on a deep copy (SEC-3); the decoder hook moves the carrier key to Content and deletes it (SEC-4); the renderers keep no package-level state (no pooled buffer a returned rendering could alias) (GLOB); no decision of the pipeline is keyed on the last path segment alone, which at depth two is a user-chosen resource name (PATHLAST); the loops that resolve environment-sourced secrets and configs carry nothing from one resource to the next (ORD on loader.resolve*); environment values looked up for secrets/configs are stored only under the carrier key resp. `content` (SEC-5); the project renderers do not write through the project (IMM-I1). What the loader stores under a constant key and reads back by type assertion (the `#extensions` mapping that carries an environment secret) is stored with a type the reader asserts, so the hand-over cannot fail silently (SEC-6). The loader never deletes the `environment` attribute of a resource, on which the blanking of its value by the renderers depends (SEC-7).",
+		Decides:    "each of the four secret/config marshallers blanks Content on the edge where it must not be rendered and reads the rendered copy afterwards (SEC-1); they exist with value receivers (SEC-2); marshallContent is written in one function, under the explicit option, on a deep copy (SEC-3); the decoder hook moves the carrier key to Content and deletes it (SEC-4); the renderers keep no package-level state (no pooled buffer a returned rendering could alias) (GLOB); no decision of the pipeline is keyed on the last path segment alone, which at depth two is a user-chosen resource name (PATHLAST); the loops that resolve environment-sourced secrets and configs carry nothing from one resource to the next (ORD on loader.resolve*); environment values looked up for secrets/configs are stored only under the carrier key resp. `content` (SEC-5); the project renderers do not write through the project (IMM-I1). What the loader stores under a constant key and reads back by type assertion (the `#extensions` mapping that carries an environment secret) is stored with a type the reader asserts, so the hand-over cannot fail silently (SEC-6). The loader never deletes the `environment` attribute of a resource, on which the blanking of its value by the renderers depends (SEC-7). The decode hook removes the carrier of a secret value from the extensions whenever it is there, whatever else the secret declares (SEC-8).",
 		NotDecided: "non-occurrence of the value in the bytes (a second struct field, a user extension literally named x-#value, a value present elsewhere in the model); exact reproduction with WithSecretContent.",
 		Rules:      []string{"SEC", "IMM-I1", "GLOB", "ORD", "PATHLAST"},
 		Run: func(c *rules.Ctx) []report.Obligation {
-			return cat(c.SECKEEP("SEC-7"), c.KEYTYPE("SEC-6"), c.PATHLAST("PATHLAST"), c.SEC("SEC"), c.IMMRender("IMM"), rules.Only(c.GLOB("GLOB"), "types.", "inventory"), rules.Only(c.ORD("ORD", "LOAD"), "loader.resolve"))
+			return cat(c.CARRIER("SEC-8"), c.SECKEEP("SEC-7"), c.KEYTYPE("SEC-6"), c.PATHLAST("PATHLAST"), c.SEC("SEC"), c.IMMRender("IMM"), rules.Only(c.GLOB("GLOB"), "types.", "inventory"), rules.Only(c.ORD("ORD", "LOAD"), "loader.resolve"))
 		},
 	})
 }
